@@ -210,3 +210,47 @@ def distinct_strs(lst):
         return z3.ForAll([j1, j2], z3.Implies(z3.And(j1 >= 0, j1 < j2, j2 < lst.length), lst.at(j1) != lst.at(j2)))
     xs = items(lst)
     return len(set(xs)) == len(xs)
+
+
+# ---- regex / text functions shared with the interpreter's uninterpreted symbols ---------------------------------
+
+
+def _z(s):
+    return s if V.is_z3(s) else z3.StringVal(s)
+
+
+def re_ok(rx, how: str, s):
+    """truthiness of `<rx>.<how>(s)`; symbolic: the interpreter's predicate symbol for that regex"""
+    if V.is_z3(s):
+        from verif.pyvc import lib
+
+        return lib.re_pred(rx.pattern, rx.flags, how)(s)
+    import re
+
+    return getattr(re.compile(rx.pattern, rx.flags), how)(s) is not None
+
+
+def re_grp(rx, how: str, k: int, s):
+    """`<rx>.<how>(s).group(k)` (meaningful under re_ok)"""
+    if V.is_z3(s):
+        from verif.pyvc import lib
+
+        return lib.re_group(rx.pattern, rx.flags, how, k)(s)
+    import re
+
+    m = getattr(re.compile(rx.pattern, rx.flags), how)(s)
+    return m.group(k) if m else ""
+
+
+def nfc(s):
+    if V.is_z3(s):
+        return z3.Function("nfc", z3.StringSort(), z3.StringSort())(s)
+    import unicodedata
+
+    return unicodedata.normalize("NFC", s)
+
+
+def strip(s):
+    if V.is_z3(s):
+        return V.str_strip(s)
+    return s.strip()
